@@ -41,3 +41,39 @@ Proof.
     pose proof (H (or_introl eq_refl)) as Hc. discriminate Hc.
 Qed.
 Print Assumptions C19_dictreplay_add_pinned_refuted.
+
+(* HerReplayBuffer.add keeping the caller's info dicts (pinned, before fix 6f36409) or only a one-level copy of them
+   (`[info.copy() for info in infos]`): a later caller write to the mutable value inside its own info dict (location 13)
+   changes what sample() returns.  The world: 7 live slots (locations 0..6), 7 caller objects (7..13). *)
+Definition her_w : world :=
+  mk_world (map (fun n => [Z.of_nat n]) (seq 0 14)) (seq 0 7) [] (seq 7 7).
+Definition her_pes (add : prog) : list pevent :=
+  [ Both (ECall add (seq 7 7)); Extra 13 [77%Z]; Both (ECall her_sample []) ].
+
+Lemma her_w_inv : Inv 7 her_w.
+Proof.
+  unfold Inv, her_w. cbn [w_slots w_heap w_known]. split; [reflexivity|]. split.
+  - intros l H. rewrite map_length, seq_length. apply in_seq in H. lia.
+  - intros l H. rewrite map_length, seq_length. apply in_seq in H. split; [lia|].
+    intros Hc. apply in_seq in Hc. lia.
+Qed.
+
+Theorem C19_her_shallow_copy_refuted :
+  disciplined 7 7 her_add_shallow = false /\
+  Inv 7 her_w /\ clean [] (her_pes her_add_shallow) = true /\
+  run_hist F1 her_w (left_run (her_pes her_add_shallow)) <> run_hist F1 her_w (right_run (her_pes her_add_shallow)).
+Proof.
+  split; [vm_compute; reflexivity|]. split; [exact her_w_inv|]. split; [vm_compute; reflexivity|].
+  vm_compute. intros H. discriminate H.
+Qed.
+Print Assumptions C19_her_shallow_copy_refuted.
+
+Theorem C19_her_add_pinned_refuted :
+  disciplined 7 7 her_add_pinned = false /\
+  Inv 7 her_w /\ clean [] (her_pes her_add_pinned) = true /\
+  run_hist F1 her_w (left_run (her_pes her_add_pinned)) <> run_hist F1 her_w (right_run (her_pes her_add_pinned)).
+Proof.
+  split; [vm_compute; reflexivity|]. split; [exact her_w_inv|]. split; [vm_compute; reflexivity|].
+  vm_compute. intros H. discriminate H.
+Qed.
+Print Assumptions C19_her_add_pinned_refuted.
